@@ -38,7 +38,7 @@ def run(ctx, ss):
         ctx.guard(r, f, ss)
     # C02.9 packaging: what is parsed is the text given NOW (no file content / parser remembered from an earlier construction)
     from .shared import reading_path
-    ctx.guard("C02.9", reading_path, ss, "C02.9", [], "the parsed text")
+    ctx.guard("C02.9", reading_path, ss, "C02.9", [], "the parsed text", False)
 
 
 def p1(ctx, ss):
